@@ -45,6 +45,14 @@ const (
 	WriteCoilValueOff uint16 = 0
 )
 
+// quantity limits from the Modbus application protocol specification
+const (
+	maxReadBits  = 2000
+	maxReadRegs  = 125
+	maxWriteBits = 1968
+	maxWriteRegs = 123
+)
+
 // minRequestLen is the minimum number of PDU bytes for a request with
 // the given function code (not including slave address or checksum,
 // which are part of the ADU).
